@@ -67,9 +67,32 @@ func genFSM(r *simrt.Rand, tier string, ws []weighted, maxparts int64) *hx.Progr
 var c06mix = []weighted{
 	{"create", 12}, {"delete", 8}, {"pause", 6}, {"resume", 6}, {"readonly", 9}, {"shrink", 8}, {"expand", 6},
 	{"leader", 6}, {"join", 8}, {"leave", 5}, {"coord", 3}, {"activity", 2}, {"snap", 10}, {"restart", 10}, {"advance", 8}, {"settle", 1},
+	{"install", 4},
 }
 
-func genC06(r *simrt.Rand, tier string, idx int) *hx.Program { return genFSM(r, tier, c06mix, 3) }
+func genC06(r *simrt.Rand, tier string, idx int) *hx.Program {
+	p := genFSM(r, tier, c06mix, 3)
+	// swarm: each of these in a share of the programs
+	if r.Pct(50) {
+		p.P["restartcheck"] = 1 // half of the restarts are followed by a settle and a full comparison
+	}
+	if r.Pct(40) {
+		p.P["raftentries"] = 1 // raft's own entries (no-op, configuration, barrier) between the commands
+	}
+	if r.Pct(50) {
+		p.P["staleops"] = 1 // ISR requests of deposed leaders / without leader, leader changes to replicas outside the ISR
+	}
+	if r.Pct(40) {
+		p.P["streamconfig"] = 1 // streams with per-stream configuration
+	}
+	if r.Pct(20) {
+		p.P["names"] = 2 // the server's reserved streams among the names
+	}
+	if r.Pct(25) {
+		p.P["obscoord"] = 1 // FSM nodes coordinate groups (member timers exist; the default timeout never fires)
+	}
+	return p
+}
 
 func checkC06(f *fsm, final bool) {
 	h := f.h
@@ -97,6 +120,14 @@ func checkC06(f *fsm, final bool) {
 					continue
 				}
 				p := n.srv.metadata.GetPartition(m.stream, m.part)
+				if p != nil && p.IsPaused() && final {
+					// a paused partition's log is closed: resume it on this server to read it (the metadata have
+					// been digested above and nothing is applied after the final check)
+					if rp, err := n.srv.metadata.ResumePartition(m.stream, m.part, false); err == nil && rp != nil {
+						p = rp
+						h.s.Count("probe.paused_partition_resumed_to_read_it")
+					}
+				}
 				if p == nil || p.IsPaused() {
 					continue
 				}
@@ -162,7 +193,7 @@ func checkC06(f *fsm, final bool) {
 }
 
 func execC06(t *testing.T, prog *hx.Program, dec *simrt.Decider, verbose bool) *hx.Outcome {
-	oc := runFSM(t, prog, dec, verbose, checkC06)
+	oc := runFSM(t, prog, dec, verbose, checkC06, nil)
 	for i, v := range oc.Viol {
 		if strings.HasPrefix(v.Sig, "panic:") {
 			oc.Viol[i].Clause = "C06/crash"
